@@ -625,7 +625,9 @@ impl ModuleManager {
 
             let from_module = self.get_module(&import.from_module)?;
 
-            for rule in from_module.get_rules() {
+            // The exporting module may re-export rules it does not own, so every
+            // known rule is a candidate (the same test as is_rule_visible)
+            for rule in self.modules.values().flat_map(|m| m.get_rules().iter()) {
                 if from_module.exports_rule(rule) && pattern_matches(&import.pattern, rule) {
                     visible.insert(rule.clone());
                 }
